@@ -39,6 +39,9 @@ def cases(tier, seed):
         if (cfg["env"] == "cvrptw" and not cfg.get("scale")) or (cfg["env"] == "mtvrp" and cfg.get("preset") in ("vrptw", "ovrptw", "vrpbltw", "all")):
             for r in range(reps):
                 out.append(dict(cfg=cfg, family="twins", B=16, s=rnd.randrange(10**6)))
+        if cfg["env"] == "mtvrp" and ("tw" in cfg.get("preset", "") or cfg.get("preset") == "all"):
+            for r in range(max(1, reps // 2)):
+                out.append(dict(cfg=cfg, family="chain", B=16, s=rnd.randrange(10**6)))
     # slow vehicles (speed < 1: the clock runs faster than the distance) on longer instances, where no-wait chains of several
     # customers end right at a deadline
     for cfg in envzoo.routing_configs((20,) if tier == "quick" else (20, 30)):
